@@ -91,6 +91,48 @@ CLAIMS = {
          'known finding (application-supplied slots are not validated) is excluded by '
          'region and printed as KNOWN-FINDING.',
     design='4/C01'),
+ 'C02': dict(
+    text='Bounded symbolic execution of the real Continuous.schedule_task / '
+         '_find_resources via _try_allocation from an arbitrary occupancy map for a '
+         'symbolic request (ranks, cores/rank incl. more than a node has, whole and '
+         'fractional GPU amounts incl. more than a node has, lfs/mem per rank, '
+         'ranks_per_node, colocate tag with symbolic tag history, exclusive flag, '
+         'scattered mode, iteration offset): every granted placement is compared '
+         'with the request; client side NodeList.find_slots/_assert_rr returns '
+         'exactly n slots of the requested shape or nothing.',
+    note='Trusted: CrossHair/z3 path exhaustion. Bounds: 2 nodes x 2 cores x 1 GPU '
+         '(schedule_task), 1 node x 2 cores x 3 GPUs (_find_resources), ranks <= 3; '
+         'partition ids (PRTE) not exercised; ContinuousJsrun/Hombre outside.',
+    design='4/C02'),
+ 'C03': dict(
+    text='Bounded symbolic execution of the real grant/release code: (1) grant via '
+         '_try_allocation + release via _unschedule_completed/unschedule_task from an '
+         'arbitrary occupancy map restores cores, GPUs, lfs, mem and _active_cnt; (2) '
+         'bounded histories on an idle pilot: 2 scheduler-placed tasks + 1 task with '
+         'application-supplied slots, released in all 6 orders through the real '
+         '_schedule_incoming/_schedule_waitpool/_unschedule_completed: nothing held is '
+         'granted again, capacity at quiescence == initial, _active_cnt == 0; (3) '
+         'executor side (shared with C07): exactly one unschedule publication per task '
+         'on every explored interleaving; (4) client side find_slots + release_slots.',
+    note='Trusted: CrossHair/z3 path exhaustion; in-memory queues. Bounds: 2 nodes x 2 '
+         'cores x 1 GPU, <= 3 tasks, lfs/mem from concrete tables.',
+    design='4/C03'),
+ 'C04': dict(
+    text='Bounded model checking of the real scheduler loop by symbolic execution: the '
+         'loop body of AgentSchedulingComponent._schedule_tasks is sliced from the '
+         'current source (AST) into a step function and driven with a symbolic event '
+         'sequence (arrivals of tasks with symbolic shape and priority - incl. invalid '
+         'and never-fitting ones -, completions, cancel requests, several arrivals in '
+         'one intake) through the real _schedule_waitpool/_schedule_incoming/'
+         '_unschedule_completed/_try_allocation/lazy_bisect/_control_cb/is_canceled; '
+         'after every iteration each task is in exactly one place and reported at most '
+         'once, at rest the liveness clauses are checked against an independent '
+         'fits-the-free-map oracle; a second harness checks the priority clause.',
+    note='Trusted: CrossHair/z3 path exhaustion; slice validated to contain the three '
+         'sub-steps; control thread interleaves only at queue boundaries. Bounds: 1 node '
+         'x 4 cores (thorough also 2 x 2), <= 3 events (thorough 4), scattered mode; '
+         'named environments and raptor forwarding not exercised here.',
+    design='4/C04'),
 }
 
 NOT_YET = 'check not built yet in this session (see DESIGN.md section 4 for the plan)'
